@@ -42,7 +42,7 @@ def build_uniform(kind, n, b):
                                                         dim=d, min_pts=tuple(lo), max_pts=tuple(hi), method="uniform")), d, {}
     if kind.startswith("nonstatio"):
         cart = not kind.endswith("nocart")
-        return (lambda key, lo, hi: CubicMeshPDENonStatio(key=key, n=n, nb=(2 if d == 1 else 4 * n), nt=n, omega_batch_size=b,
+        return (lambda key, lo, hi: CubicMeshPDENonStatio(key=key, n=n, nb=(2 if d == 1 else 4 * n), nt=n + 1, omega_batch_size=b,
                                                            omega_border_batch_size=(2 if d == 1 else b), temporal_batch_size=b, dim=d,
                                                            min_pts=tuple(lo[1:]), max_pts=tuple(hi[1:]), tmin=lo[0], tmax=hi[0],
                                                            method="uniform", cartesian_product=cart)), d + 1, {}
@@ -139,7 +139,7 @@ def run(cfg, R):
                 G.append(in_box(f"border facet {fct}: free coordinate in range", [sb[i, 1 - ax, fct] for i in range(n)], lo_[off + 1 - ax], hi_[off + 1 - ax]))
         if off:
             tt = g0.times
-            G.append(shape_goal("stored times", tt, (n,)))
+            G.append(shape_goal("stored times", tt, (n + 1,)))
             G.append(in_box("stored times in [tmin, tmax]", list(tt.flat), lo_[0], hi_[0]))
         for c, bt in enumerate(outs):
             if not off:
